@@ -82,6 +82,7 @@ def stage(binary, work, cases, limit, rnd, max_events=6000, workers=12):
         d.mkdir(parents=True, exist_ok=True)
         if "mods" in c["prog"]:
             for name, text in c["files"].items():
+                (d / name).parent.mkdir(parents=True, exist_ok=True)
                 (d / name).write_text(text)
             entry = c["prog"]["mods"][c["prog"]["entry"] - 1]["name"] + ".ms"
         else:
